@@ -423,3 +423,68 @@ Fixpoint run (cfg : mcfg) (st : mfile) (steps : list step) : mfile * list outcom
   end.
 
 Definition cfg_current (thr : Z) (ext : N) : mcfg := mkCfg false thr ext.
+
+(* ------------------------------------------------------------------------------------ *)
+(* vocabulary of the theorems (props/C17.v)                                              *)
+(* ------------------------------------------------------------------------------------ *)
+(* the image of a MANIFEST holding the change sets css, one record each *)
+Definition mf_records (css : list (list change)) : bytes :=
+  flat_map (fun cs => mf_record (pb_changeset cs)) css.
+Definition mf_image (ext : N) (css : list (list change)) : bytes := mf_header ext ++ mf_records css.
+
+(* change sets applied one after the other, stopping at the first rejected one *)
+Fixpoint apply_sets (m : manifest) (css : list (list change)) : manifest * option aerr :=
+  match css with
+  | [] => (m, None)
+  | cs :: r =>
+      match apply_changeset m cs with
+      | (m', None) => apply_sets m' r
+      | (m', Some e) => (m', Some e)
+      end
+  end.
+
+Definition wf_changeset (cs : list change) : bool := forallb wf_change cs.
+
+Definition step_wf (s : step) : bool :=
+  match s with SAdd cs _ => wf_changeset cs | SReopen => true end.
+
+Definition outcome_ok (o : outcome) : bool :=
+  match o with OAppended | ORewrote | OReopened _ => true | _ => false end.
+
+(* a run in which every argument is a value of its Go type, every file stays below 4 GiB
+   (uint32(len(buf)), uint32(stat.Size())), and — unless `allow_rejects` — every addChanges
+   call is accepted *)
+Fixpoint run_ok (allow_rejects : bool) (cfg : mcfg) (st : mfile) (steps : list step) : Prop :=
+  match steps with
+  | [] => True
+  | s :: r =>
+      let '(st', o) := do_step cfg st s in
+      step_wf s = true
+      /\ (outcome_ok o = true \/ (allow_rejects = true /\ exists e, o = ORejected e))
+      /\ N.of_nat (length (mf_bytes st')) < two32
+      /\ run_ok allow_rejects cfg st' r
+  end.
+
+Fixpoint no_reopen (steps : list step) : bool :=
+  match steps with
+  | [] => true
+  | SReopen :: _ => false
+  | SAdd _ _ :: r => no_reopen r
+  end.
+
+(* the table map as a function: what "the same table-to-level map" means *)
+Definition same_tables (a b : manifest) : Prop := m_tables a = m_tables b.
+Definition same_counters (a b : manifest) : Prop :=
+  m_creations a = m_creations b /\ m_deletions a = m_deletions b.
+
+(* ids registered at level l (levels beyond the slice are empty) *)
+Definition level_ids (m : manifest) (l : nat) : list N := skeys (nth l (m_levels m) []).
+
+(* the change sets addChanges accepted (returned nil for), in order: the specification of what
+   the table map must be is their atomic application, nothing else *)
+Fixpoint accepted (steps : list step) (outs : list outcome) : list (list change) :=
+  match steps, outs with
+  | SAdd cs _ :: r, o :: os => if outcome_ok o then cs :: accepted r os else accepted r os
+  | SReopen :: r, _ :: os => accepted r os
+  | _, _ => []
+  end.
